@@ -250,7 +250,7 @@ def generic(prop, ctx, nq, nt, steps, rule, weights=None, extra=None, **kw):
     if ctx.get('replay'):
         rp = ctx['replay']
         lines = rp.get('scenario')
-        if lines:
+        if lines and not rp.get('realonly'):
             run_scenarios(prop, dict(ctx, noshrink=True), [('replay', lines)], res, label='replay')
         return res
     corpus = corpus_scenarios(prop)
@@ -358,7 +358,7 @@ def c06(ctx):
                    weights=dict(QUIET, inpub=25, pubrel=14, lost=5, publish=3, fire=4, sethandlers=2, chunked=3), profiles=(3, 1, 3, 1, 2))
 
 
-def c07(ctx):
+def _c07(ctx):
     def extra(ctx):
         # calls that pass the argument checks but cannot be encoded (a topic of 65536 UTF-8 bytes) are not accepted calls: they must leave
         # nothing behind - the window still admits `win` real requests, loss settles the real ones, the next connection starts clean
@@ -497,7 +497,7 @@ def c12(ctx):
                    weights=dict(W, lost=8), extra=extra, profiles=(3, 2, 3))
 
 
-def c13(ctx):
+def _c13(ctx):
     def drained(ctx):
         """settle everything, then let a long stretch of virtual time pass: silence is required"""
         out = []
@@ -597,6 +597,125 @@ def c17(ctx):
                    weights=dict(QUIET, publish=16, subscribe=8, unsubscribe=8, puback=6, pubrec=4, pubcomp=4, suback=4, unsuback=4, setwin=4, lost=3, fire=4), extra=extra, naddr=2)
 
 
+# ---------------------------------------------------------------------------------------------
+# application callbacks that call the API again (real code only: the model has no application code)
+# ---------------------------------------------------------------------------------------------
+def reentry_scenarios(ctx):
+    out = []
+    calls = {'subscribe': 'subscribe {p} %s 1' % s_tok('again'), 'unsubscribe': 'unsubscribe {p} %s' % s_tok('again'),
+             'publish1': 'publish {p} %s b:41 1 0' % s_tok('again'), 'publish2': 'publish {p} %s b:41 2 0' % s_tok('again'),
+             'publish0': 'publish {p} %s b:41 0 0' % s_tok('again')}
+    for prof in (3, 1, 2):
+        mine = [k for k in calls if (k.startswith('publish') and prof in (2, 3)) or (not k.startswith('publish') and prof in (1, 3))]
+        for clean in (1, 0):
+            for ver in ('311',) if ctx['tier'] == 'quick' else ('311', '31'):
+                pre = ['factory %d' % prof, 'build a0', 'sethandlers 0 7', 'connect 0 %s 0 %s %d' % (s_tok('c'), ver, clean), 'recv 0 20020000', 'setwin 0 2']
+                pend = []
+                if prof in (1, 3):
+                    pend += ['subscribe 0 %s 1' % s_tok('s'), 'unsubscribe 0 %s' % s_tok('u')]
+                if prof in (2, 3) and clean:
+                    pend += ['publish 0 %s b:42 1 0' % s_tok('t')]
+                if not pend:
+                    continue
+                for k in mine:
+                    for reason in ('lostc', 'done', 'aborted'):
+                        sc = pre + pend + ['reenter ' + calls[k].format(p=0), 'lost 0 %s' % reason]
+                        sc += ['fireall', 'build a0', 'sethandlers 1 7', 'connect 1 %s 0 %s %d' % (s_tok('c'), ver, clean), 'recv 1 20020000', 'setwin 1 2', 'fireall']
+                        if prof in (1, 3):
+                            sc += ['subscribe 1 %s 0' % s_tok('n1'), 'subscribe 1 %s 0' % s_tok('n2')]
+                        out.append(('loss-%d-%d-%s-%s' % (prof, clean, k, reason), 'loss', sc))
+        # the errback of a refused connect() calls the API
+        for k in mine:
+            sc = ['factory %d' % prof, 'build a0', 'sethandlers 0 7', 'connect 0 %s 0 311 1' % s_tok('c'), 'reenter ' + calls[k].format(p=0),
+                  'recv 0 %s' % hx(connack(5, 0)), 'fireall', 'lost 0 done', 'fireall']
+            out.append(('refused-%d-%s' % (prof, k), 'refused', sc))
+    return out
+
+
+def reentry_check(ctx, res, prop):
+    """an application errback that calls subscribe()/unsubscribe()/publish() again -- during the report of a connection loss, or on a refused
+    connect() -- finds a protocol that no longer serves requests: the call fails with MQTTStateError, nothing is written to the lost transport then
+    or later, no retry timer of the old connection is left, and the next connection's window is free"""
+    if ctx.get('replay'):
+        rp = ctx['replay']
+        if not rp.get('realonly'):
+            return
+        todo = [('replay', 'refused' if 'refused' in rp.get('signature', '') else 'loss', rp['scenario'])]
+    else:
+        todo = reentry_scenarios(ctx)
+    n = 0
+    for name, kind, sc in todo:
+        w = realworld.RealWorld(int(sc[0].split()[1]))
+        trace = []
+        lost_at = None
+        for line in sc[1:]:
+            if line == 'fireall':
+                for _ in range(12):
+                    e = w.earliest_timers()
+                    if not e:
+                        break
+                    l2 = 'fire %d' % e[0]._vid
+                    trace.append((l2, w.step(l2)))
+                continue
+            if line.startswith('lost 0') and lost_at is None:
+                lost_at = len(trace)
+            trace.append((line, w.step(line)))
+        n += 1
+        bad = None
+        nested = []
+        for i, (op, obs) in enumerate(trace):
+            inside = False
+            for o in obs:
+                if o == 'reenter-begin':
+                    inside = True; continue
+                if o == 'reenter-end':
+                    inside = False; continue
+                if inside:
+                    nested.append(o)
+                if kind == 'loss' and lost_at is not None and i >= lost_at and o.startswith('w 0 '):
+                    bad = bad or 'a packet (%s) is written to transport 0 at/after the report of its loss (step `%s`)' % (o.split()[2][:16], op[:40])
+                if kind == 'refused' and inside and o.startswith('w 0 '):
+                    bad = bad or 'a request made from the errback of the refused connect() was written (%s)' % o.split()[2][:16]
+                if o.startswith(('esc', 'raised')):
+                    bad = bad or 'exception: %s in `%s`' % (o, op[:40])
+        rets = [o for o in nested if o.startswith('ret')]
+        if not bad and rets != ['ret fail MQTTStateError']:
+            bad = 'the call made from the errback returned %s, not a Deferred failed with MQTTStateError' % (rets or nested[:3])
+        last_timers = [o for o in trace[-1][1] if o.startswith('timers')][0].split()[1:] if trace else []
+        stale = [t for t in last_timers if t.split(':')[1] in ('rpub', 'rrel', 'rsub', 'runsub') and t.split(':')[2] == '0']
+        if not bad and stale:
+            bad = 'retry timer(s) of the lost connection still pending at the end: %s' % stale[:3]
+        if not bad and kind == 'loss':
+            subs = [(op, obs) for op, obs in trace if op.startswith('subscribe 1 ')]
+            for op, obs in subs:
+                if not any(o.startswith('ret pending') for o in obs):
+                    bad = 'subscribe() on the next connection is kept out of the window: %s' % [o for o in obs if o.startswith('ret')]
+                    break
+        if bad:
+            res.violations.append(dict(signature='%s re-entrant %s' % (prop, kind), what='%s: %s (re-entrant scenario %s)' % (prop, bad, name),
+                                       scenario=[l for l in sc], realonly=True))
+    res.programs += n; res.evaluations += n
+    res.extra['reentrant_scenarios'] = n
+
+
+def c07(ctx):
+    res = _c07(ctx)
+    reentry_check(ctx, res, 'C07')
+    return res
+
+
+def c13(ctx):
+    res = _c13(ctx)
+    reentry_check(ctx, res, 'C13')
+    return res
+
+
+def c14(ctx):
+    res = _c14(ctx)
+    reentry_check(ctx, res, 'C14')
+    return res
+
+
 def strict_decode_writes(ctx, res, prop):
     """every packet written during the campaign's scenarios must parse with the strict reference decoder (Spec.decode, written from
     the OASIS text and run in the Lean driver) as a client-to-broker packet of the connection's protocol version"""
@@ -632,6 +751,7 @@ def c18(ctx):
     res = _c18(ctx)
     if not ctx.get('replay'):
         strict_decode_writes(ctx, res, 'C18')
+    reentry_check(ctx, res, 'C18')
     return res
 
 
@@ -744,7 +864,7 @@ def c16(ctx):
                    weights=dict(garbage=12, badcall=3, connect_bad=2, connack_bad=5, disconnect=0, dupack=4, pingresp=4), extra=extra)
 
 
-def c14(ctx):
+def _c14(ctx):
     def extra(ctx):
         out = []
         apis = ['connect {p} %s 0 311 1' % s_tok('c'), 'disconnect {p}', 'publish {p} %s b:41 0 0' % s_tok('t'), 'publish {p} %s b:41 1 0' % s_tok('t'),
